@@ -643,7 +643,7 @@ pub fn run(rc: &mut RunCtx) {
     let (docs, max_len) = rc.pick((80u64, 12u64), (250u64, 15u64));
     rc.run_indexed(STAGES[3], docs, false, &|k| Input::Args(vec![seed, k, max_len]));
     rc.run_one(STAGES[1], Input::Args(vec![3]));
-    rc.run_pt(STAGES[2], rc.pick(80_000, 2_000_000), (128, 700));
+    rc.run_pt(STAGES[2], rc.pick(320_000, 2_000_000), (128, 700));
     rc.require_label("any_partition", "two_or_more_reads", 500_000);
     rc.require_label("any_partition", "has_pending", 300_000);
     rc.require_label("any_partition", "buffered_set", 100_000);
